@@ -206,7 +206,9 @@ def r3(ctx, prog):
         if c is None or c[0] != "==" or g.cv(c[2]) != 0:
             return False
         j = g.strip(c[1])
-        return g.nodes[j]["k"] == "BinaryOperator" and g.nodes[j]["op"] == "%" and rl.var_of(g, g.nodes[j]["c"][0]) == al and g.cv(g.nodes[j]["c"][1]) == 8
+        n_ = g.nodes[j]
+        # alignment % sizeof(void*)  or the same thing as a mask  alignment & (sizeof(void*)-1)
+        return n_["k"] == "BinaryOperator" and rl.var_of(g, n_["c"][0]) == al and ((n_["op"] == "%" and g.cv(n_["c"][1]) == 8) or (n_["op"] == "&" and g.cv(n_["c"][1]) == 7))
     def al_pow2(e, pol):
         return isinstance(e, int) and pol and rl.is_call(g, g.strip(e), "_mi_is_power_of_two")
     def p_nonnull(e, pol):
@@ -221,7 +223,10 @@ def r3(ctx, prog):
         def failed(lab, p, q):
             # the ENOMEM edge: q == NULL && size != 0
             return True
-        rets_enomem = [r for r in g.all(kind="ReturnStmt") if g.cv(g.nodes[r].get("val", -1)) == enomem]
+        # where the failure result is produced: `return ENOMEM;` or `err = ENOMEM;` for a result variable that is returned
+        rvars = {rl.var_of(g, g.nodes[r]["val"]) for r in g.all(kind="ReturnStmt") if "val" in g.nodes[r] and not g.nodes[r].get("inl_ret")} - {None}
+        rets_enomem = [r for r in g.all(kind="ReturnStmt") if g.cv(g.nodes[r].get("val", -1)) == enomem] + \
+                      [a for d_ in rvars for a, rhs, op in g.var_defs(d_) if rhs is not None and g.cv(rhs) == enomem]
         ok = bool(rets_enomem) and bool(qs)
         if ok:
             # from the ENOMEM return's guarding edge the store is unreachable, and the store's value is q
@@ -236,7 +241,14 @@ def r3(ctx, prog):
                 return isinstance(e, int) and (rl.fact_nonnull(g, e, pol, rl.is_var(g, qs[0])) or rl.fact_null(g, e, pol, rl.is_var(g, szp)))
             ok = ok and cfg.guarded(cfg.pt(s), okq) is None
         ctx.check(R, ok, g.where(s), "*p = q; the NULL result returns ENOMEM without storing", key="C06.R3:posix:store")
-    bad = [r for r in g.all(kind="ReturnStmt") if g.cv(g.nodes[r].get("val", -1)) not in (0, einval, enomem)]
+    bad = []
+    for r in g.all(kind="ReturnStmt"):
+        if g.nodes[r].get("inl_ret") or "val" not in g.nodes[r]:
+            continue
+        d_ = rl.var_of(g, g.nodes[r]["val"])
+        vals_ = [g.cv(rhs) for a, rhs, op in g.var_defs(d_) if rhs is not None] if d_ is not None and d_ not in g.pids else [g.cv(g.nodes[r]["val"])]
+        if any(v_ not in (0, einval, enomem) for v_ in vals_):
+            bad.append(r)
     ctx.check(R, not bad, g.where(), "returns only 0, EINVAL or ENOMEM", key="C06.R3:posix:codes")
     ctx.floor(R, 10)
 
@@ -262,11 +274,10 @@ def r4(ctx, prog):
     g = prog.fn("mi_reallocarr")
     cfg = g.cfg
     pd = g.param_id(0)
-    hit = [q for p, q, e, pol in rl.edges_with_fact(g, lambda e, pol: isinstance(e, int) and rl.fact_null(g, e, pol, rl.is_var(g, pd)))]
+    hit = [(p, q) for p, q, e, pol in rl.edges_with_fact(g, lambda e, pol: isinstance(e, int) and rl.fact_null(g, e, pol, rl.is_var(g, pd)))]
     ok = bool(hit)
-    for q in hit:
-        rets = [cfg.elem_at(p) for p in cfg.reach([q]) if cfg.elem_at(p) is not None and g.nodes[cfg.elem_at(p)]["k"] == "ReturnStmt"]
-        ok = ok and rets and all(g.cv(g.nodes[r].get("val", -1)) == einval for r in rets) and cfg.must_pass([q], cfg.exit_points(), errno_store(g, einval)) is None
+    for p_, q in hit:
+        ok = ok and rl.returns_only(g, q, einval, src=p_) and cfg.must_pass([q], cfg.exit_points(), errno_store(g, einval)) is None
     ctx.check(R, ok, g.where(), "p == NULL: errno = EINVAL and return EINVAL", key="C06.R4:reallocarr:null")
     news = [dd["d"] for _, dd in rl.var_init_from(g, lambda j: rl.is_call(g, j, "mi_reallocarray"))]
     stores = [a for a, lhs, rhs, op in g.stores() if g.nodes[g.strip(lhs)]["k"] == "UnaryOperator" and g.nodes[g.strip(lhs)]["op"] == "*"
